@@ -38,11 +38,27 @@ package model
 //@   property C15
 //@   ensures cell_safe: forall k int :: {res[k]} 0 <= k && k < len(res) ==> res[k] != 10 && (res[k] == '|' ==> k >= 1 && res[k-1] == 92)
 
-// everything written into the table is a structural literal or escaped cell text
-//@ func (*Table) ToMarkdown
-//@   property C15
-//@   flags callsites
+// everything written into the table is a structural literal or escaped cell text; and (C12) every cell of every row
+// is written exactly once, in row order: `cells` counts the calls of escapeMarkdownCell, each of which receives the text
+// of the cell the loops stand at
+//@ spec rec prefix func cellcount(rows [][]Cell, n int) int = n <= 0 ? 0 : cellcount(rows, n - 1) + len(rows[n-1])
+//@ func (*Table) ToMarkdown results (res)
+//@   property C15, C12
+//@   flags nosafety
+//@   count cells: escapeMarkdownCell(s) when true
 //@   callsite WriteString(s) requires cell_or_structure: s == "| " || s == " " || s == "|" || s == "\n" || s == "|---" || (forall k int :: {s[k]} 0 <= k && k < len(s) ==> s[k] != 10 && (s[k] == '|' ==> k >= 1 && s[k-1] == 92))
+//@   callsite escapeMarkdownCell#1(s) requires header_cell_in_place: s == t.Rows[0][$i].Text
+//@   callsite escapeMarkdownCell#2(s) requires data_cell_in_place: s == t.Rows[i][$i].Text
+//@   ensures every_cell_written_once: len(t.Rows) > 0 ==> cells == cellcount(t.Rows, len(t.Rows))
+//@   loop 0:
+//@     invariant cells == $i
+//@   loop 1:
+//@     invariant cells == len(t.Rows[0])
+//@   loop 2:
+//@     invariant 1 <= i && i <= len(t.Rows) && cells == cellcount(t.Rows, i)
+//@     decreases len(t.Rows) - i
+//@   loop 3:
+//@     invariant 1 <= i && i < len(t.Rows) && cells == cellcount(t.Rows, i) + $i
 
 // ---- C10: page-level metadata refers to the true source page ----
 // A page that already carries its source page number keeps it (a selection of pages 3 and 5 is reported as pages 3
